@@ -75,6 +75,14 @@ pub fn flow(t: usize, vals: &[V], rich: Rich) -> Vec<Letter> {
     // a cogeneration system with its own auxiliaries; metadata that the LIBRARY must not act upon
     al.push(Letter::many(vec![p(Some(5), "EL_COGEN", last), u(Some(5), "COGEN", "GASNATURAL", &scale(last, 2, 1)), a(Some(5), first)]));
     al.push(Letter::many(vec![Line::M { key: "CTE_KEXP", val: "1.0" }, Line::M { key: "CTE_AREAREF", val: "7.5" }, Line::M { key: "CTE_LOCALIZACION", val: "CANARIAS" }]));
+    // a system with one EPB service, a non-EPB use, auxiliaries and its declared output
+    al.push(Letter::many(vec![u(Some(9), "CAL", "GASNATURAL", last), u(Some(9), "NEPB", "ELECTRICIDAD", mid), o(9, "CAL", mid), a(Some(9), first)]));
+    // lines that are declared but zero at every step: an idle PV field, an idle boiler, idle ambient production, an idle CHP
+    let zeros: Vec<V> = vec![0; t];
+    al.push(Letter::one(p(Some(6), "EL_INSITU", &zeros)));
+    al.push(Letter::one(u(Some(3), "CAL", "BIOMASA", &zeros)));
+    al.push(Letter::one(p(Some(1), "EAMBIENTE", &zeros)));
+    al.push(Letter::many(vec![p(Some(6), "EL_COGEN", &zeros), u(Some(6), "COGEN", "GASNATURAL", &zeros)]));
     if rich == Rich::Wide {
         al.push(Letter::many(vec![p(Some(2), "EL_COGEN", first), u(Some(2), "COGEN", "RED1", &scale(last, 2, 1))]));
         al.push(Letter::one(u(Some(4), "ACS", "RED2", last)));
